@@ -51,7 +51,12 @@ def run_body(run, cls, lo=mn, hi=mx, shift=None):
         sub = ArrExec(src, "operation")
         sub.hyps = ex.hyps
         sub.fn_line = mp.lineno
-        out = sub.block(body_of(mp), {"start": args[0], "end": args[1], "resolution": args[2]})
+        names = [a.arg for a in mp.args.args]
+        dflt = dict(zip(names[len(names) - len(mp.args.defaults):], [ast.literal_eval(ast.unparse(d)) for d in mp.args.defaults]))
+        benv = {}
+        for k_, nm in enumerate(names):
+            benv[nm] = args[k_] if k_ < len(args) else (IntS(z3.IntVal(dflt[nm])) if isinstance(dflt.get(nm), int) else dflt[nm])
+        out = sub.block(body_of(mp), benv)
         ex.obls += [(f"{nm} [in Op.midpoints]", h, g) for nm, h, g in sub.obls]
         return out
 
